@@ -47,9 +47,11 @@ def state (c : Coef α) (cols : Nat) (d : Nat → α) : Nat → Nat → α
 def aimRaw (c : Coef α) (K cols : Nat) (d : Nat → α) (col : Nat) : α :=
   sumRange K (state c cols d (cols - 1 - col))
 
-/-- the recursion with the two edge columns copied from their neighbours -/
+/-- the recursion with the two edge columns copied from their neighbours; with fewer than 3 columns the loop fills nothing and the
+    (zero-initialised, since repair F41) output stays zero -/
 def recursion (c : Coef α) (K cols : Nat) (d : Nat → α) : Nat → α := fun j =>
-  if j = 0 then aimRaw c K cols d 1 else if j = cols - 1 then aimRaw c K cols d (cols - 2) else aimRaw c K cols d j
+  if cols < 3 then 0
+  else if j = 0 then aimRaw c K cols d 1 else if j = cols - 1 then aimRaw c K cols d (cols - 2) else aimRaw c K cols d j
 
 end recursion
 
@@ -99,7 +101,7 @@ section whole
 variable {α : Type} [Zero α] [Add α] [Sub α] [Mul α] [Div α] [Neg α] [NatCast α] [OfNat α 1] [OfNat α 2]
   [HasLog α] [HasRpow α] [HasPi α]
 
-/-- `hansenlaw_transform(row, dr, direction, hold_order)` for one row of `cols ≥ 3` samples -/
+/-- `hansenlaw_transform(row, dr, direction, hold_order)` for one row of `cols ≥ 2` samples -/
 def transform (h lam : Nat → α) (K : Nat) (forward hold1 : Bool) (cols : Nat) (dr : α) (im : Nat → α) : Nat → α :=
   let d := if forward then driveForward dr im else if hold1 then driveInverse1 cols dr im else driveInverse0 cols dr im
   recursion (coef h lam (if forward then 1 else 0) hold1) K cols d
